@@ -17,17 +17,21 @@ def _load(name, path):
 
 def check(tier):
     t0 = time.time()
-    parts = []
+    from concurrent.futures import ThreadPoolExecutor
     jsmn = _load('jsmn_run', os.path.join(common.VERIF, 'engines/jsmn/run.py'))
-    parts.append(jsmn.run(tier))
-    js = os.path.join(common.VERIF, 'engines/extract/run_json.py')
-    if os.path.exists(js):
-        parts += _load('json_run', js).run(tier)
+    jsn = _load('json_run', os.path.join(common.VERIF, 'engines/extract/run_json.py'))
+    with ThreadPoolExecutor(2) as ex:
+        fa = ex.submit(jsmn.run, tier)
+        fb = ex.submit(jsn.run, tier)
+        parts = [fa.result()] + fb.result()
     expl = ('Layer (a): every function of the unmodified contrib/src/jsmn/jsmn.c is verified against a contract '
             '(pre/postconditions, frame, loop invariants + decreases for all 6 loops) with goto-instrument --dfcc; '
             'inputs of any length up to the stated object size, no loop unwound: counted as proved obligations. '
-            'Layers (b)/(c) (jsonEscape/jsonUnescape and the token walk of Data::fromJSON, mechanically extracted to C) '
-            'are bounded checks and are reported in the bounded_* counters only. Data::toJSON, Data tree building and '
+            'Layers (b)/(c): Data::jsonEscape/jsonUnescape (round trip, and the escaped text is one string token for the real '
+            'jsmn_parse_string) and the token walk of Data::fromJSON (every read of the token array inside the allocation, no '
+            'pop/back on an empty stack, values attached to the enclosing container, termination) are mechanically extracted to C; '
+            'the walk is checked against the CONTRACT of jsmn_parse (tokens_ok), whose structural clauses are checked bounded against '
+            'the real jsmn.c. These layers are BOUNDED and reported in the bounded_* counters only. Data::toJSON, Data tree building and '
             'Event<->Data are C++ containers outside CBMC\'s reach and are not covered.')
     return common.finish('C15', tier, 'proof', parts, t0, expl)
 
